@@ -1,15 +1,279 @@
 """C17 — see DESIGN.md section 4 ("the repository model") and lean/XvcRepo/XvcRepo/Props/C17.lean.
 Proof: Lean theorems about the executable repository model.  Tie: the model driver is compared with the rebuilt xvc
-binary after every command of generated histories.  Oracle: model-independent, lib/repo_check.py."""
+binary after every command of generated histories.  Oracle: model-independent, lib/repo_check.py.
+
+Targets of one command that are copied out of the cache at the same time (rayon): Props/C17Tmp.lean proves that any
+schedule of the per-file copy procedures equals the sequential run because their directory entries (the path and its
+temporary name) are disjoint.  Stream `tmp-name` ties the temporary name of the model to the name the binary really
+renames from (strace); stream `parallel-siblings` is the search for a failing input (files that differ in the extension
+only, copied by parallel track / recheck, judged without the model)."""
+import hashlib
+import os
+import random
+import re
+import shutil
+import stat
+import subprocess
+
 import repo_check as rc
 
 ORACLES = [rc.o6_methods]
 RESTORE = dict()
 
+FIXED_NAMES = ['a.txt', 'model.bin', 'model.json', 'model', 'm.b', 'm.j', '.hidden', '.hidden.cfg', 'archive.tar.gz', 'archive.tar.xz',
+               'x..y', 'trailing.', 'sp ace.dat', 'sp ace.txt', 'ünï.bin', 'ünï.json', 'a.xvc-tmp', 'xvc-tmp', 'noext', 'N.B', 'n.b',
+               '-dash.bin', 'a.b.c.d', 'é', '日本.語']
+ALPHABET = ['a', 'b', 'm', 'Z', '0', '.', '.', '-', '_', ' ', 'é', 'ß', '語', 'x', 'v', 'c', 't', 'p']
+
+
+def is_tmp_shape(name_bytes):
+    """python twin of isTmpB (cross-checked against the model driver for every name of the stream)"""
+    return len(name_bytes) >= 9 and name_bytes[:1] == b'.' and name_bytes.endswith(b'.xvc-tmp')
+
+
+def gen_names(rng, n):
+    out = list(FIXED_NAMES)
+    while len(out) < len(FIXED_NAMES) + n:
+        k = rng.randint(1, 14)
+        s = ''.join(rng.choice(ALPHABET) for _ in range(k))
+        if s in ('.', '..') or s.endswith(' ') or s.startswith(' ') or s.startswith('-') or s in out:
+            continue          # blanks at the ends / leading dash are a matter of the argument parser and .gitignore (C16), not of C17
+        if is_tmp_shape(s.encode()):
+            continue
+        out.append(s)
+    # siblings of one stem
+    for s in list(out[len(FIXED_NAMES):len(FIXED_NAMES) + n // 3]):
+        st = s.rsplit('.', 1)[0] if '.' in s[1:] else s
+        for e in ('.bin', '.json'):
+            if st + e not in out and st not in ('', '.'):
+                out.append(st + e)
+    return out
+
+
+def unhex_c(s):
+    """a C string literal as printed by `strace -xx` (every byte as \\xNN) -> bytes"""
+    return bytes(int(h, 16) for h in re.findall(r'\\x([0-9a-f]{2})', s))
+
+
+def ask_model(model, lines):
+    if not os.path.exists(model):
+        return None
+    p = subprocess.run([model], input='\n'.join(lines) + '\n', stdout=subprocess.PIPE, text=True, timeout=300)
+    return p.stdout.split('\n')[:len(lines)]
+
+
+def tmp_name_stream(chk, xvc, model, n_random):
+    """Which directory entries does the binary touch when it copies a file out of the cache?  strace reports every
+    rename(2); the source of a rename whose destination is a workspace path is the temporary name."""
+    from xvcbin import Sandbox
+    st = chk.tie['streams'].setdefault('tmp-name', {'names': 0, 'renames_observed': 0, 'disagreements': 0, 'commands_traced': 0})
+    if not shutil.which('strace'):
+        chk.notes.append('strace not available: temporary names not observed')
+        return 0
+    rng = random.Random(f'c17-tmp-{chk.seed}')
+    names = gen_names(rng, n_random)
+    dirs = ['', 'd/e/']
+    sb = Sandbox(os.path.join(chk.scratch, 'c17tmp'), 'A', xvc)
+    sb.init()
+    paths = []
+    for i, nm in enumerate(names):
+        d = dirs[i % 2] if i >= 6 else ''
+        p = d + nm
+        sb.write(p, f'content of {i}\n'.encode() * 3)
+        paths.append(p)
+    want_root = os.path.realpath(sb.root)
+    observed = {}          # path -> set of temp basenames (bytes)
+    foreign = []
+
+    def traced(args, label):
+        tf = os.path.join(sb.base, f'trace-{label}')
+        rc_, out, err = sb.run(['strace', '-f', '-qq', '-xx', '-s', '4096', '-o', tf, '-e', 'trace=rename,renameat,renameat2', xvc] + args)
+        st['commands_traced'] += 1
+        pending = {}
+        for line in open(tf, errors='replace'):
+            # with -f a call of one thread may be printed in two pieces around the calls of other threads
+            pid = line.split(' ', 1)[0]
+            mu = re.search(r'rename(?:at2?)?\((?:AT_FDCWD, )?"((?:\\x[0-9a-f]{2})*)", (?:AT_FDCWD, )?"((?:\\x[0-9a-f]{2})*)"(?:, [A-Z_0-9|]+)?\s*<unfinished', line)
+            if mu:
+                pending[pid] = mu; continue
+            mr = re.search(r'<\.\.\. rename(?:at2?)? resumed>.*\)\s*= (-?\d+)', line)
+            if mr:
+                m = pending.pop(pid, None) if mr.group(1) == '0' else None
+                if mr.group(1) != '0': pending.pop(pid, None)
+            else:
+                m = re.search(r'rename(?:at2?)?\((?:AT_FDCWD, )?"((?:\\x[0-9a-f]{2})*)", (?:AT_FDCWD, )?"((?:\\x[0-9a-f]{2})*)"(?:, [A-Z_0-9|]+)?\)\s*= 0', line)
+            if not m:
+                continue
+            src, dst = unhex_c(m.group(1)), unhex_c(m.group(2))
+            src_abs = os.path.normpath(os.path.join(want_root.encode(), src))
+            dst_abs = os.path.normpath(os.path.join(want_root.encode(), dst))
+            rel = os.path.relpath(dst_abs, want_root.encode())
+            if rel.startswith(b'.xvc/') or rel.startswith(b'..'):
+                continue          # cache / store files
+            st['renames_observed'] += 1
+            if os.path.dirname(src_abs) != os.path.dirname(dst_abs):
+                foreign.append((label, src_abs.decode('utf-8', 'replace'), dst_abs.decode('utf-8', 'replace')))
+            observed.setdefault(rel, set()).add(os.path.basename(src_abs))
+        return rc_, out, err
+
+    # parallel track (copy method: the file is moved to the cache and copied back), then delete and recheck (serial and "parallel")
+    r1 = traced(['file', 'track', '--recheck-method', 'copy'] + paths, 'track')
+    for p in paths[::2]:
+        if os.path.lexists(sb.path(p)): os.unlink(sb.path(p))
+    r2 = traced(['file', 'recheck'] + paths[::2], 'recheck')
+    for p in paths[1::2]:
+        if os.path.lexists(sb.path(p)): os.unlink(sb.path(p))
+    r3 = traced(['file', 'recheck', '--no-parallel'] + paths[1::2], 'recheck-np')
+    for (rc_, out, err), label in ((r1, 'track'), (r2, 'recheck'), (r3, 'recheck-np')):
+        chk.count(f'tmp-name:{label}:rc={rc_}')
+    lines = [f'tmpname {os.path.basename(p).encode().hex()}' for p in paths] + [f'istmp {os.path.basename(p).encode().hex()}' for p in paths]
+    ans = ask_model(model, lines)
+    for i, p in enumerate(paths):
+        st['names'] += 1
+        chk.evaluations += 1
+        nb = os.path.basename(p).encode()
+        obs = observed.get(p.encode(), set())
+        chk.count('tmp-name:path-observed' if obs else 'tmp-name:path-not-renamed')
+        if obs: chk.nontrivial.add('tmp:' + p)
+        if ans is None:
+            continue
+        mt, mi = ans[i], ans[len(paths) + i]
+        if mi != ('1' if is_tmp_shape(nb) else '0'):
+            st['disagreements'] += 1
+            chk.disagreement('tmp-name', {'name': p}, f'python isTmp={is_tmp_shape(nb)}', f'model isTmpB={mi}', 'the reserved-shape test of the generator differs from the model')
+        bad = [o for o in obs if o.hex() != mt]
+        if bad or not obs:
+            st['disagreements'] += 1
+            if st['disagreements'] <= 4: chk.disagreement('tmp-name', {'path': p, 'commands': 'track --recheck-method copy; delete; recheck'},
+                             'renamed from ' + (', '.join(repr(o.decode('utf-8', 'replace')) for o in sorted(obs)) or 'nothing (no rename to this path observed)'),
+                             ('tmpName = ' + repr(bytes.fromhex(mt).decode('utf-8', 'replace'))) if re.fullmatch(r'[0-9a-f]*', mt or 'x') else str(mt),
+                             'the temporary entry the binary uses for this path is not the one of the model (Props/C17Tmp: footprints of different targets are disjoint)')
+    if foreign:
+        st['disagreements'] += 1
+        chk.disagreement('tmp-name', {'renames': foreign[:5]}, 'temporary entry in another directory than the path', 'tmpPath keeps the directory', '')
+    # nothing of the reserved shape is left behind
+    left = []
+    for root, ds, fs in os.walk(sb.root):
+        if '.xvc' in ds: ds.remove('.xvc')
+        if '.git' in ds: ds.remove('.git')
+        left += [os.path.join(root, f) for f in fs if f not in names and (is_tmp_shape(f.encode()) or f.endswith('.xvc-tmp'))]
+    if left:
+        chk.oracle_failure('temporary entries left in the workspace after successful commands', {'tmp_case': 'tmp-name', 'left': left[:5]}, None,
+                           signature={'kind': 'temporary-entry-left'})
+    # every file is what was tracked
+    for i, p in enumerate(paths):
+        want = f'content of {i}\n'.encode() * 3
+        try:
+            got = open(sb.path(p), 'rb').read()
+        except OSError as e:
+            got = repr(e).encode()
+        if got != want:
+            chk.oracle_failure(f'{p}: not the tracked bytes after track/delete/recheck', {'tmp_case': 'tmp-name', 'path': p, 'names': names}, None,
+                               signature={'kind': 'parallel-copy-wrong-entry'})
+    return st['disagreements']
+
+
+def sibling_round(chk, xvc, name, pairs, size, rng):
+    """one fresh repository: `pairs` x (s<i>.bin, s<i>.json) with different random bytes, parallel track by copy, then delete all and
+    recheck with --no-parallel (which, through an inverted flag, is the parallel variant).  returns list of complaints"""
+    from xvcbin import Sandbox
+    sb = Sandbox(os.path.join(chk.scratch, 'c17sib'), name, xvc)
+    sb.init()
+    want = {}
+    for i in range(pairs):
+        for e in ('bin', 'json'):
+            p = f'data/s{i}.{e}'
+            blob = rng.randbytes(1 << 16) * (size >> 16) + f'{p}\n'.encode()
+            sb.write(p, blob)
+            want[p] = hashlib.sha256(blob).hexdigest()
+    bad = []
+
+    def judge(after):
+        for p, h in sorted(want.items()):
+            fp = sb.path(p)
+            try:
+                stt = os.lstat(fp)
+            except OSError:
+                bad.append(f'{after}: {p} does not exist'); continue
+            if not stat.S_ISREG(stt.st_mode):
+                bad.append(f'{after}: {p} is not a regular file'); continue
+            if not stt.st_mode & 0o200:
+                bad.append(f'{after}: {p} is not user-writable (mode {oct(stt.st_mode & 0o777)})')
+            got = hashlib.sha256(open(fp, 'rb').read()).hexdigest()
+            if got != h:
+                other = [q for q, hq in want.items() if hq == got]
+                bad.append(f'{after}: {p} does not hold the tracked bytes' + (f' (it holds the bytes of {other[0]})' if other else ''))
+        left = [f for f in os.listdir(sb.path('data')) if f.endswith('.xvc-tmp')]
+        if left:
+            bad.append(f'{after}: temporary entries left: {sorted(left)[:4]}')
+    rc_, out, err = sb.x('file', 'track', '--recheck-method', 'copy', 'data/')
+    judge(f'xvc file track --recheck-method copy data/ (rc={rc_})')
+    if not bad:
+        for p in want: os.unlink(sb.path(p))
+        rc_, out, err = sb.x('file', 'recheck', '--no-parallel', 'data/')
+        judge(f'delete all; xvc file recheck --no-parallel data/ (rc={rc_})')
+    shutil.rmtree(sb.base, ignore_errors=True)
+    return bad
+
+
+def sibling_stream(chk, xvc, rounds, pairs, size):
+    st = chk.tie['streams'].setdefault('parallel-siblings', {'rounds': 0, 'pairs_per_round': pairs, 'bytes_per_file': size})
+    rng = random.Random(f'c17-sib-{chk.seed}')
+    for k in range(rounds):
+        bad = sibling_round(chk, xvc, f'r{k}', pairs, size, rng)
+        st['rounds'] += 1
+        chk.evaluations += 1
+        chk.nontrivial.add(f'sib:{k}:{pairs}:{size}')
+        chk.count('parallel-siblings:' + ('violated' if bad else 'held'))
+        if bad:
+            chk.oracle_failure('files of one stem copied out of the cache in parallel: ' + '; '.join(bad[:4]),
+                               {'tmp_case': 'parallel-siblings', 'pairs': pairs, 'size': size, 'rounds': rounds, 'round': k,
+                                'readable': [f'{pairs} pairs data/s<i>.bin + data/s<i>.json of {size} random bytes', 'xvc file track --recheck-method copy data/',
+                                             'delete all', 'xvc file recheck --no-parallel data/']}, bad[:12], signature={'kind': 'parallel-copy-wrong-entry'})
+            return True
+    return False
+
+
+def tmp_streams(chk):
+    quick = chk.tier == 'quick'
+    ctx = chk.repo_ctx
+    model = chk.lean('XvcRepo', 'XvcRepo.Props.C17Tmp', exe='tmpmodel', extra_modules=['XvcRepo.TmpName', 'XvcRepo.TmpLemmas'])
+    dis = tmp_name_stream(chk, ctx['xvc'], model, 24 if quick else 120)
+    # the search is widened when the tie (or the proof) of the temporary names broke
+    suspicious = bool(dis) or any(b.get('package') == 'XvcRepo' for b in chk.proof['broken'])
+    if suspicious:
+        sibling_stream(chk, ctx['xvc'], 16, 6, 4 << 20)
+    else:
+        sibling_stream(chk, ctx['xvc'], 2 if quick else 12, 6, (2 << 20) if quick else (4 << 20))
+    chk.extra['rule'] = chk.extra.get('rule', '') + (
+        ' || tmp-name stream: one repository with fixed + generated file names (dots at every position, same stem with different extensions, blanks, '
+        'non-ASCII, hidden, names ending in .xvc-tmp) in two directories; parallel `track --recheck-method copy`, delete, `recheck` and `recheck --no-parallel` under '
+        'strace -e rename*: the source of every rename onto a workspace path is compared with the model\'s tmpName (driver tmpmodel), same directory required, '
+        'no temporary entry left, bytes as tracked || parallel-siblings stream: fresh repositories with 6 pairs s<i>.bin/s<i>.json of 2-4 MiB random bytes, '
+        'parallel track by copy, delete all, parallel recheck; every entry must be a regular user-writable file with its own bytes (16 rounds of 4 MiB when the '
+        'tmp-name tie or a XvcRepo proof broke)')
+    chk.assumptions.append('no tracked file is itself named `.<name>.xvc-tmp` (the reserved shape of copy_file\'s temporary entries; hypothesis ¬IsTmp of C17_parallel_copies_materialise); '
+                           'the kernel executes each rename/unlink/open atomically with respect to the other threads (FsOp.apply)')
+
 
 def run(chk):
-    return rc.run_property(chk, 'C17', ORACLES, restore=RESTORE, extra_props=['XvcRepo.Props.C17Cmd'])
+    return rc.run_property(chk, 'C17', ORACLES, restore=RESTORE, extra_props=['XvcRepo.Props.C17Cmd'], before_finish=lambda: tmp_streams(chk))
 
 
 def replay(chk, data):
-    return rc.replay_property(chk, data, ORACLES, restore=RESTORE)
+    mine = [f for f in data.get('failures', []) if 'tmp_case' in f.get('case', {})]
+    rest = dict(data, failures=[f for f in data.get('failures', []) if 'tmp_case' not in f.get('case', {})])
+    if mine:
+        xvc = chk.build_xvc()
+        for f in mine:
+            case = f['case']
+            if case['tmp_case'] == 'parallel-siblings':
+                hit = sibling_stream(chk, xvc, max(case.get('rounds', 12), 12), case.get('pairs', 6), case.get('size', 4 << 20))
+                print('oracle:', 'violated' if hit else 'property holds on this input (all rounds)')
+            else:
+                import common
+                model = os.path.join(common.LEAN_DIR, 'XvcRepo', '.lake', 'build', 'bin', 'tmpmodel')
+                tmp_name_stream(chk, xvc, model, 24)
+        if not rest['failures']:
+            return chk.finish()
+    return rc.replay_property(chk, rest, ORACLES, restore=RESTORE)
